@@ -14,7 +14,7 @@ func init() {
 			}
 			alpha := []cliEv{
 				{K: "start", I: 0}, {K: "overwrite", I: 0}, {K: "setrto", Arg: 1},
-				{K: "tick", Arg: 0}, {K: "tick", Arg: 1}, {K: "tick", Arg: 2},
+				{K: "tick", Arg: 0}, {K: "tick", Arg: 1}, {K: "tick", Arg: 2}, {K: "tick", Arg: 3},
 				{K: "resp", I: 0}, {K: "failwrite"}, {K: "close"},
 			}
 			eps := []string{"drain+close", "close"}
@@ -68,8 +68,8 @@ func init() {
 				{K: "start", I: 0}, {K: "start", I: 1}, {K: "start", I: 2},
 				{K: "resp", I: 0}, {K: "resp", I: 1}, {K: "resp", I: 2},
 				{K: "resp", I: 0, Arg: 1}, {K: "resp", I: 1, Arg: 2}, {K: "unknown"}, {K: "unknown", Arg: 1},
-				{K: "garbage", Arg: 0}, {K: "garbage", Arg: 1}, {K: "garbage", Arg: 2}, {K: "garbage", Arg: 3},
-				{K: "tick", Arg: 1}, {K: "failagent"},
+				{K: "garbage", Arg: 0}, {K: "garbage", Arg: 1}, {K: "garbage", Arg: 2}, {K: "garbage", Arg: 3}, {K: "garbage", Arg: 4},
+				{K: "resp", I: 2, Arg: 3}, {K: "tick", Arg: 1}, {K: "failagent"},
 			}
 			eps := []string{"drain+close"}
 			cliHistories(c, "C12", cliOpts{Fallback: true, PoolFanout: true}, alpha, depth, eps, "Hfb")
@@ -128,6 +128,7 @@ func init() {
 			optSets := []cliOpts{
 				{}, {NoConnClose: true}, {Fallback: true}, {NoRetransmit: true}, {ConnCloseErr: true}, {AgentCloseErr: true},
 				{ConnCloseErr: true, AgentCloseErr: true}, {NoConnClose: true, ConnCloseErr: true, AgentCloseErr: true}, {RTO: 1000000, Fallback: true, NoConnClose: true},
+				{Reentrant: true}, {Reentrant: true, NoRetransmit: true},
 			}
 			for i, o := range optSets {
 				d := depth
@@ -140,7 +141,7 @@ func init() {
 			tickAfter := cliEv{K: "tick", Arg: 1}
 			cl := cliEv{K: "close"}
 			n := 0
-			for _, o := range []cliOpts{{}, {NoConnClose: true}, {ConnCloseErr: true, AgentCloseErr: true}, {Fallback: true, NoConnClose: true}} {
+			for _, o := range []cliOpts{{}, {NoConnClose: true}, {ConnCloseErr: true, AgentCloseErr: true}, {Fallback: true, NoConnClose: true}, {Reentrant: true}} {
 				for _, sc := range []cliScenario{
 					{Threads: [][]cliEv{nil, {cl}, {cl}}},
 					{Threads: [][]cliEv{nil, {cl}, {cl}, {cl}}},
